@@ -87,17 +87,133 @@ Proof.
     rewrite (stateless_roundtrip_lemma m x Hc). reflexivity.
 Qed.
 
-(* the broadcaster's fallback on the unchanged tree: a well-formed vote with sig.ps != 0 that is
-   longer than MaxCompressedVoteSize reaches the receiver cut to 502 bytes *)
+(* ---- the msgpack fallback: a raw msgpack vote is never mistaken for a frame ----
+   A msgpack vote starts with fixmap(3) = 0x83 = 131.  Read as a header byte, 131 announces per
+   and dig only, so both Compress and DecompressVote consume at most 420 bytes and then reject
+   the trailing data; every msgpack vote is longer (>= 493 bytes). *)
+Lemma is_varuint_len : forall d, is_varuint d = true -> (List.length d <= 9)%nat.
+Proof.
+  intros d H. apply is_varuint_cons in H as (b & r & k & -> & Hk & Hlen).
+  apply varuint_more_cases in Hk. simpl. lia.
+Qed.
+
+Lemma fld_len_u : forall c d, fld c is_varuint d -> (List.length d <= 9)%nat.
+Proof. intros [|] d H; simpl in H; [apply is_varuint_len; assumption | subst; simpl; lia]. Qed.
+
+Lemma fld_len_b : forall c n d, fld c (is_bin n) d -> (List.length d <= n)%nat.
+Proof.
+  intros [|] n d H; simpl in H; [apply Nat.eqb_eq in H; lia | subst; simpl; lia].
+Qed.
+
+Lemma fld_false_nil : forall ok d, fld false ok d -> d = [].
+Proof. intros ok d H. exact H. Qed.
+
+Lemma compress_raw_msgpack_fails : forall canon st b l,
+  (418 < List.length l)%nat -> compress canon st (131 :: b :: l) = None.
+Proof.
+  intros canon st b l Hlen. destruct (compress canon st (131 :: b :: l)) as [[f st']|] eqn:H; [|reflexivity].
+  exfalso. unfold compress in H.
+  apply bind_some in H as ([hdr l0] & Hhdr & H). apply take_n_inv in Hhdr as [Hx Hhl].
+  destruct hdr as [|h0 [|h1 [|? ?]]]; try (simpl in Hhl; discriminate). simpl in Hx.
+  inversion Hx; subst h0 h1 l0; clear Hx Hhl. cbn [nth] in H.
+  apply bind_some in H as ([pf l1] & H1 & H). apply take_n_inv in H1 as [-> Lpf].
+  apply bind_some in H as ([per l2] & H2 & H). apply opt_read_varuint_inv in H2 as [-> Fper].
+  apply bind_some in H as ([prop l3] & H3 & H).
+  apply read_prop_inv in H3 as (dig & encdig & oper & oprop & -> & _ & Fdig & Fenc & Foper & Foprop).
+  apply bind_some in H as ([rndData l4] & H4 & H). apply read_varuint_bytes_inv in H4 as [-> Vrnd].
+  apply bind_some in H as (rnd & _ & H).
+  destruct (enc_rnd canon (last_rnd st) rndData rnd) as [rc rndout].
+  apply bind_some in H as ([snd l5] & H5 & H). apply take_n_inv in H5 as [-> Lsnd].
+  destruct (enc_ref snd_hash (snd_t st) snd) as [[sref sout] st1].
+  apply bind_some in H as ([step l6] & H6 & H). apply opt_read_varuint_inv in H6 as [-> Fstep].
+  apply bind_some in H as ([pk l7] & H7 & H). apply take_n_inv in H7 as [-> Lpk].
+  destruct (enc_ref pk_hash (pk_t st) pk) as [[pref pout] pt1].
+  apply bind_some in H as ([pk2 l8] & H8 & H). apply take_n_inv in H8 as [-> Lpk2].
+  destruct (enc_ref pk_hash (pk2_t st) pk2) as [[p2ref p2out] p2t1].
+  apply bind_some in H as ([sigs l9] & H9 & H). apply take_n_inv in H9 as [-> Lsigs].
+  destruct (is_nil l9) eqn:Enil; [|discriminate]. apply is_nil_true in Enil. subst l9.
+  change (bit 131 2) with false in Fenc. change (bit 131 3) with false in Foper.
+  change (bit 131 4) with false in Foprop. change (bit 131 5) with false in Fstep.
+  apply fld_false_nil in Fenc, Foper, Foprop, Fstep. subst encdig oper oprop step.
+  apply fld_len_u in Fper. apply fld_len_b in Fdig. apply is_varuint_len in Vrnd.
+  rewrite !app_length in Hlen. simpl in Hlen. lia.
+Qed.
+
+Lemma d_bin_len : forall c key n l o l', d_bin c key n l = Some (o, l') ->
+  exists d, l = d ++ l' /\ (List.length d <= n)%nat.
+Proof.
+  intros [|] key n l o l' H; simpl in H.
+  - apply bind_some in H as ([d r] & Ht & H). apply take_n_inv in Ht as [-> Hl]. inversion H; subst.
+    exists d. split; [reflexivity | lia].
+  - inversion H; subst. exists []. split; [reflexivity | simpl; lia].
+Qed.
+
+Lemma d_varuint_len : forall c key l o l', d_varuint c key l = Some (o, l') ->
+  exists d, l = d ++ l' /\ (List.length d <= 9)%nat.
+Proof.
+  intros [|] key l o l' H; simpl in H.
+  - apply bind_some in H as ([d r] & Ht & H). apply read_varuint_bytes_inv in Ht as [-> Hv].
+    inversion H; subst. exists d. split; [reflexivity | apply is_varuint_len; assumption].
+  - inversion H; subst. exists []. split; [reflexivity | simpl; lia].
+Qed.
+
+Lemma decompress_raw_msgpack_fails : forall b l,
+  (418 < List.length l)%nat -> decompress_vote (131 :: b :: l) = None.
+Proof.
+  intros b l Hlen. destruct (decompress_vote (131 :: b :: l)) as [out|] eqn:H; [|reflexivity].
+  exfalso. unfold decompress_vote in H.
+  change (bit 131 0) with true in H. change (bit 131 1) with true in H.
+  change (bit 131 2) with false in H. change (bit 131 3) with false in H.
+  change (bit 131 4) with false in H. change (bit 131 5) with false in H.
+  change (negb (N.land 131 30 =? 0)) with true in H. cbn [andb] in H.
+  apply bind_some in H as ([o1 l1] & H1 & H). apply d_bin_len in H1 as (d1 & -> & L1).
+  apply bind_some in H as ([o2 l2] & H2 & H). apply d_varuint_len in H2 as (d2 & -> & L2).
+  apply bind_some in H as ([o3 l3] & H3 & H). apply d_bin_len in H3 as (d3 & -> & L3).
+  apply bind_some in H as ([o4 l4] & H4 & H). simpl in H4. inversion H4; subst o4 l4; clear H4.
+  apply bind_some in H as ([o5 l5] & H5 & H). simpl in H5. inversion H5; subst o5 l5; clear H5.
+  apply bind_some in H as ([o6 l6] & H6 & H). simpl in H6. inversion H6; subst o6 l6; clear H6.
+  apply bind_some in H as ([o7 l7] & H7 & H). apply d_varuint_len in H7 as (d7 & -> & L7).
+  apply bind_some in H as ([o8 l8] & H8 & H). apply d_bin_len in H8 as (d8 & -> & L8).
+  apply bind_some in H as ([o9 l9] & H9 & H). simpl in H9. inversion H9; subst o9 l9; clear H9.
+  apply bind_some in H as ([oa la] & Ha & H). apply d_bin_len in Ha as (da & -> & La).
+  apply bind_some in H as ([ob lb] & Hb & H). apply d_bin_len in Hb as (db & -> & Lb).
+  apply bind_some in H as ([oc lc] & Hc & H). apply d_bin_len in Hc as (dc & -> & Lc).
+  apply bind_some in H as ([od ld] & Hd & H). apply d_bin_len in Hd as (dd & -> & Ld).
+  apply bind_some in H as ([oe le] & He & H). apply d_bin_len in He as (de & -> & Le).
+  destruct (is_nil le) eqn:Enil; [|discriminate]. apply is_nil_true in Enil. subst le.
+  rewrite !app_length in Hlen. simpl in Hlen. lia.
+Qed.
+
+(* a vote the stateless encoder refuses is sent whole (fix 8ff1e5c455) and arrives whole: if the
+   stateful stream is on, Compress fails on it, the stream is aborted and the vote follows as
+   plain AV; the receiver's stateless decoder rejects it too and hands the original bytes on *)
+Theorem net_fallback_lossless_lemma : forall s m b l,
+  m = 131 :: b :: l -> (418 < List.length l)%nat -> compress_vote true m = None ->
+  broadcast_data m = m /\
+  snd (fst (net_step s m)) = if n_son s then [DNone; DBytes m] else [DBytes m].
+Proof.
+  intros s m b l -> Hlen Hc. split; [unfold broadcast_data; rewrite Hc; reflexivity|].
+  unfold net_step, sender_step. destruct (n_son s).
+  - rewrite compress_raw_msgpack_fails by assumption.
+    cbn [recv_all recv_wire n_ron n_dec n_son n_enc].
+    replace (bytes_eqb abort_payload abort_payload) with true by (symmetry; apply bytes_eqb_refl).
+    cbn [snd fst]. unfold av_deliver. rewrite decompress_raw_msgpack_fails by assumption. reflexivity.
+  - cbn [recv_all recv_wire snd fst]. unfold av_deliver.
+    rewrite decompress_raw_msgpack_fails by assumption. reflexivity.
+Qed.
+
+(* the fallback BEFORE the fix ([broadcast_data_unfixed]): a well-formed 603-byte vote with
+   sig.ps != 0 reached the receiver cut to 502 bytes; with the fix it arrives whole *)
 Definition long_uncompressible_vote : bytes :=
   let m0 := encode_msgp witness_vote2 in
   let k := (List.length m0 - 132)%nat in firstn k m0 ++ [1] ++ skipn (S k) m0.
 
-Lemma fallback_truncates_witness :
+Lemma fallback_unfixed_truncated :
   let m := long_uncompressible_vote in
   all_bytes m = true /\ List.length m = 603%nat /\ compress_vote true m = None /\
   (exists s0, net_init 16 = Some s0 /\
-     snd (fst (net_step s0 (broadcast_data m))) = [DNone; DBytes (firstn 502 m)]) /\
+     snd (fst (net_step s0 (broadcast_data_unfixed m))) = [DNone; DBytes (firstn 502 m)] /\
+     snd (fst (net_step s0 (broadcast_data m))) = [DNone; DBytes m]) /\
   firstn 502 m <> m.
 Proof.
   cbv zeta. split; [vm_compute; reflexivity|]. split; [vm_compute; reflexivity|].
@@ -105,6 +221,6 @@ Proof.
   - destruct (net_init 16) as [s0|] eqn:E; [|vm_compute in E; discriminate].
     exists s0. split; [reflexivity|].
     assert (Es : Some s0 = net_init 16) by (symmetry; exact E).
-    vm_compute in Es. inversion Es; subst s0. vm_compute. reflexivity.
+    vm_compute in Es. inversion Es; subst s0. split; vm_compute; reflexivity.
   - intro E. apply (f_equal (@List.length N)) in E. vm_compute in E. discriminate.
 Qed.
